@@ -32,7 +32,11 @@ Definition jv_row (r : maprow) : jv := JL [JB (w_addr r); JB (w_perms r); JB (w_
 Definition jv_rows (rs : list maprow) : jv := JL (map jv_row rs).
 Definition jv_grow (g : bytes * list Z) : jv := JL [JB (fst g); jv_zs (snd g)].
 Definition jv_grouped (gs : list (bytes * list Z)) : jv := JL (map jv_grow gs).
-Definition ex_of (l : list bytes) : bytes -> bool := fun p => existsb (beqb p) l.
+(* the caller's os.stat on marked names: [ex] = names that exist, [den] = names answered with
+   EACCES / EPERM, every other name = absent (ENOENT or any other errno) *)
+Definition probe_of (ex den : list bytes) : bytes -> probe_res :=
+  fun p => if existsb (beqb p) ex then PExists else if existsb (beqb p) den then PDenied else PAbsent.
+Definition ex_of (l : list bytes) : bytes -> probe_res := probe_of l [].
 
 Definition ps_of (n : Z) : pstate := if n =? 0 then Alive else if n =? 1 then Zombie else Gone.
 (* file selector: 0 = present with this content, 1 = ENOENT, 2 = ESRCH, 3 = EACCES *)
@@ -53,7 +57,7 @@ Definition run_full (pagesize : Z) (has_rollup : bool) (rmode : Z) (ex : list by
   JL [ jpack smaps; jpack (k_rollup rl); JB (k_statm r);
        jv_outcome jv_zs (memory_full_info Alive pagesize has_rollup (fr rmode (k_rollup rl))
                                           (FContent smaps) (FContent (k_statm r)));
-       (if forallb (wf_kernel (ex_of ex)) ms && wf_statm r && negb (rmode =? 3)
+       (if forallb wf_kernel0 ms && wf_statm r && negb (rmode =? 3)
         then if negb has_rollup || negb (rmode =? 0) || (wf_rollup rl && consistent rl ms)
              then JC "Val" [jv_zs (spec_full pagesize r ms)]
              else if wf_rollup rl && rounded rl ms
@@ -66,17 +70,18 @@ Definition run_full_raw (psn pagesize : Z) (has_rollup : bool) (rmode : Z) (roll
                                           (fr smode smaps) (fr tmode statm)) ].
 
 (* ---- memory_maps *)
-Definition run_maps (ex : list bytes) (ms : list mapping) : jv :=
+Definition run_maps (ex den : list bytes) (ms : list mapping) : jv :=
   let smaps := k_smaps ms in
-  let res := memory_maps Alive (ex_of ex) (FContent smaps) in
-  let ok := forallb (wf_kernel (ex_of ex)) ms && uniform_figs ms in
+  let res := memory_maps Alive (probe_of ex den) (FContent smaps) in
+  (* the demanded rows do not depend on WHY the probe of a readable marker fails *)
+  let ok := forallb (fun m => wf_kernel0 m && marker_ok (probe_of ex den) m) ms && uniform_figs ms in
   JL [ jpack smaps;
        jv_outcome jv_rows res;
        jv_outcome jv_grouped (omap group_rows res);
        (if ok then JC "Val" [jv_rows (map spec_row ms)] else jnone);
        (if ok then JC "Val" [jv_grouped (spec_grouped (map spec_row ms))] else jnone) ].
-Definition run_maps_raw (psn : Z) (ex : list bytes) (smode : Z) (smaps : bytes) : jv :=
-  let res := memory_maps (ps_of psn) (ex_of ex) (fr smode smaps) in
+Definition run_maps_raw (psn : Z) (ex den : list bytes) (smode : Z) (smaps : bytes) : jv :=
+  let res := memory_maps (ps_of psn) (probe_of ex den) (fr smode smaps) in
   JL [ jv_outcome jv_rows res; jv_outcome jv_grouped (omap group_rows res) ].
 
 (* ---- memory_percent over the same kernel-shaped files *)
@@ -89,7 +94,7 @@ Definition run_percent (pagesize : Z) (has_rollup : bool) (rmode : Z) (ex : list
                               (FContent smaps) (FContent (k_statm r)) in
   JL [ jpack smaps; jpack (k_rollup rl); JB (k_statm r);
        jv_outcome jv_ratio (memory_percent memtype mi mfi total);
-       (if forallb (wf_kernel (ex_of ex)) ms && wf_statm r
+       (if forallb wf_kernel0 ms && wf_statm r
            && (negb has_rollup || negb (rmode =? 0) || (wf_rollup rl && consistent rl ms))
            && negb (rmode =? 3) && (0 <? total)
         then jv_outcome jv_ratio (spec_percent memtype (spec_full pagesize r ms) total) else jnone) ].
@@ -116,5 +121,5 @@ Definition run_percent_hist (pagesize : Z) (ex : list bytes) (ms : list mapping)
   let mfi := memory_full_info Alive pagesize false FENOENT (FContent smaps) (FContent (k_statm r)) in
   JL [ jpack smaps; JB (k_statm r);
        JL (map (jv_outcome jv_ratio) (run_hist mi mfi None kernel0 ops));
-       (if forallb (wf_kernel (ex_of ex)) ms && wf_statm r && hist_ok ops && (0 <? kernel0)
+       (if forallb wf_kernel0 ms && wf_statm r && hist_ok ops && (0 <? kernel0)
         then JL (map (jv_outcome jv_ratio) (spec_hist (spec_full pagesize r ms) None kernel0 ops)) else jnone) ].
